@@ -100,6 +100,26 @@ CLAIMED["C19"] = dict(
     technique="writer/reader table extraction from dict/lambda literals and an if/elif chain, set comparison",
     design="3/C19")
 
+CLAIMED["C14"] = dict(
+    text="ATOM rule over the writers of exactly the state files the property names: every write-open targets a "
+         "temporary path that is the source of a rename in the same function, the rename is unreachable from handlers "
+         "that swallowed a failed write, nobody opens the final path for writing, and the serialiser does not mutate the "
+         "persisted object; plus escape/unescape agreement (same keys, inverse codecs, one key=value line, split on "
+         "the first '='). Decides the write discipline for all crash points at once; byte-level outcomes per crash "
+         "point and fidelity of unescaped fields are not decided. Four genuine defects were repaired by fix: commits.",
+    technique="write-open/rename pairing on the CFG (temp-then-rename, rename-on-success-only), purity lint of "
+              "serialisers, codec table agreement",
+    design="3/C14")
+CLAIMED["C15"] = dict(
+    text="Order-taint analysis over conf.py, flowir.py, dsl.py, graph.py: unordered sources (sets, set operations, "
+         "set-returning functions, directory listings) must not reach an order-dependent sink (materialise, join, pop, "
+         "loop with append/break/counter) without sorted(); benign hits are frozen with reasons. Plus variable files "
+         "keep the caller's order and fold last-wins, the hash routine iterates only through sorted(), names are "
+         "numbered over ordered containers. Holds for every hash seed / directory order; equality of full dumps across "
+         "processes is not run, networkx-internal ordering is an assumption.",
+    technique="intra-procedural order-taint (set-typedness inference + sink classification) with a frozen exemption table",
+    design="3/C15")
+
 NOT_APPLICABLE = {
     "C20": "arithmetic over floating-point stage weights (sums, int(w*1000) truncation, fallback split) for every "
            "stage count: no structural clause is a necessary condition; needs numeric exploration or a solver, i.e. "
